@@ -26,6 +26,13 @@ long long ofv_get(const char *name)
 	return 0;
 }
 
+long long ofv_get_i(const char *name, long i)
+{
+	char key[300];
+	snprintf(key, sizeof key, "%s[%ld]", name, i);
+	return ofv_get(key);
+}
+
 void *ofv_exact_alloc(size_t n)
 {
 	void *p = malloc(n);	/* exact size: ASan red zones start right after byte n-1 */
